@@ -719,15 +719,16 @@ def remap (input ptx : List Scaffold) (prefix_ : Str) (joinGap : Option Gap) (er
 
 /-! ### reports (assembly_stats.py) and output naming (pretext_to_asm.name_assemblies) -/
 
-/-- `chromosome_name_csv`: lines `name,chr_name,localised` -/
+/-- `chromosome_name_csv`: lines `name,chr_name,localised`; the chromosome name is remembered per Pretext scaffold -/
 def chromosomeNameCsv (prefix_ : Str) (scs : List Scaffold) : List (Str × Str × Bool) :=
-  (scs.foldl (fun (acc : List (Str × Str × Bool) × Option Str × Str) s =>
-    let (out, lastOrig, chrName) := acc
+  (scs.foldl (fun (acc : List (Str × Str × Bool) × List (Option Str × Str)) s =>
+    let (out, seen) := acc
     if s.rank = (1 : Int) ∨ s.rank = (2 : Int) then
-      if truthy lastOrig ∧ s.originalName = lastOrig then (out ++ [(s.name, chrName, false)], lastOrig, chrName)
-      else
+      match (if truthy s.originalName then dGet? seen s.originalName else none) with
+      | some cn => (out ++ [(s.name, cn, false)], seen)
+      | none =>
         let cn := replaceFirst prefix_ [] s.name
-        (out ++ [(s.name, cn, true)], s.originalName, cn)
-    else acc) ([], none, [])).1
+        (out ++ [(s.name, cn, true)], dSet seen s.originalName cn)
+    else acc) ([], [])).1
 
 end AgpTpf
